@@ -55,7 +55,8 @@ def run(ck):
             u()
     ck.require_monitor("prefix-oracle", "completion-oracle")
     # behavioural reach (independent of internal names): damage was applied and reads both failed and survived
-    ck.require_reach("read-succeeded-despite-damage", "read-failed", "forged-mixed-set-read", "coordinated-forgery-read")
+    ck.require_reach("read-succeeded-despite-damage", "read-failed", "forged-mixed-set-read", "coordinated-forgery-read",
+                     "sibling-cap-with-same-storage-index-alive")
 
 
 class ScratchFailed(Exception):
@@ -178,6 +179,18 @@ def one_case(ck, rng, fam):
         elif forged is None:
             damage()
 
+        # caps of OTHER files / encodings under the same AES key (hence the same storage index) turned into live node
+        # objects first: a reader of `cap` must never be served through one of them
+        sibling_caps = [cap_a, cap_b] if fam == "forged" else ([cap2] if fam in ("otherfile", "otherenc") else [])
+        siblings = []
+        for sc in sibling_caps:
+            if sc != cap and rng.random() < .7:
+                sn = c.create_node_from_uri(sc)
+                siblings.append(sn)
+                if uri.from_string(sc).get_storage_index() == si:
+                    ck.hit("sibling-cap-with-same-storage-index-alive")
+                if rng.random() < .5:
+                    g.wait(sn.read(imm.RecordingConsumer(), 0, min(10, size)))
         node = c.create_node_from_uri(cap)
         nreads = rng.randint(1, 3)
         for r in range(nreads):
